@@ -502,7 +502,23 @@ impl<I: Hash + Eq, A: Hash + Eq> Game<I, A> {
 
                 match outcomes.len() {
                     0 => Err(GameError::EmptyChance),
-                    1 => Ok(outcomes.pop().unwrap()),
+                    1 => {
+                        // a named infoset must have this single outcome everywhere
+                        if info.is_some() {
+                            match chance_infosets.entry(info) {
+                                compact::Entry::Vacant(ent) => {
+                                    ent.insert(ChanceInfosetData::new([1.0]));
+                                }
+                                compact::Entry::Occupied(ent) => {
+                                    let (_, data) = ent.get();
+                                    if data.probs.len() != 1 {
+                                        return Err(GameError::ProbabilitiesNotEqual);
+                                    }
+                                }
+                            }
+                        }
+                        Ok(outcomes.pop().unwrap())
+                    }
                     _ => {
                         // renormalize to make sure consistency
                         let total: f64 = probs.iter().sum();
